@@ -65,6 +65,18 @@ impl Property for C16 {
                 }
             }
         }
+        for (t, n) in dense_lengths(tier) {
+            if !sh.mine() {
+                continue;
+            }
+            let mut hot = Bits::zeros(n);
+            hot.0[n / 2] = true;
+            for a in [Bits::ones(n), hot, dense_value(n), Bits::zeros(n)] {
+                if !f(C16Case { a: Operand::canon(t, a) }) {
+                    return;
+                }
+            }
+        }
         for t in [TID_D, TID_A, 18u8] {
             let c = fixed_cap(t).unwrap_or(usize::MAX);
             for n in LONG_LENS {
@@ -74,6 +86,15 @@ impl Property for C16 {
                 let n = n.min(c);
                 let mut vals = long_values(n);
                 vals.push(Bits::zeros(n));
+                for j in 0..(n + 63) / 64 {
+                    let i = (j * 64 + 5).min(n - 1);
+                    let mut b = Bits::zeros(n);
+                    b.0[i] = true;
+                    vals.push(b.clone());
+                    // the same with everything above set / everything below set
+                    vals.push(Bits((0..n).map(|x| x <= i).collect()));
+                    vals.push(Bits((0..n).map(|x| x >= i).collect()));
+                }
                 for r in [1usize, 63, 64, 65, 511, 512, 513, 1023, 1024] {
                     // runs of ones / zeros of length r at either end
                     vals.push(Bits((0..n).map(|i| i < r).collect()));
